@@ -253,11 +253,24 @@ pub fn run(s: &Scen, inp: &Shared, outp: &Shared, p0: u64) -> Outcome {
                         let t = block_on(pm.get_tile_by_id_async(*id))?;
                         value.extend(t.unwrap_or_default());
                     }
+                    for (id, _) in tiles.iter().skip(1).take(2) {
+                        if let Ok((z, x, y)) = pmtiles2::util::zxy(*id) {
+                            let t = block_on(pm.get_tile_async(x, y, z))?;
+                            value.extend(t.ok_or_else(|| std::io::Error::new(std::io::ErrorKind::Other, "tile vanished"))?);
+                        }
+                    }
                 } else {
                     let mut pm = PMTiles::from_reader(input)?;
                     for (id, _) in tiles.iter().take(3) {
                         let t = pm.get_tile_by_id(*id)?;
                         value.extend(t.unwrap_or_default());
+                    }
+                    // the same tiles looked up by coordinates
+                    for (id, _) in tiles.iter().skip(1).take(2) {
+                        if let Ok((z, x, y)) = pmtiles2::util::zxy(*id) {
+                            let t = pm.get_tile(x, y, z)?;
+                            value.extend(t.ok_or_else(|| std::io::Error::new(std::io::ErrorKind::Other, "tile vanished"))?);
+                        }
                     }
                 }
                 Ok(())
